@@ -59,7 +59,9 @@ namespace svmon
     template <typename U> MallocAlloc (const MallocAlloc<U>&) noexcept { }
     T *allocate (std::size_t n)
     {
-      void *p = std::malloc (n * sizeof (T));
+      void *p = 0;
+      if (alignof (T) > 16) { if (posix_memalign (&p, alignof (T), n * sizeof (T) ? n * sizeof (T) : alignof (T))) p = 0; }
+      else p = std::malloc (n * sizeof (T));
       if (! p) { std::fputs ("svmon: out of memory\n", stderr); std::abort (); }
       return static_cast<T *> (p);
     }
